@@ -95,7 +95,9 @@ num = []
 for p in GRID:
     for mk, nm in ((lambda p: qp.AmplitudeDamping(p, wires=0), "AmplitudeDamping"), (lambda p: qp.PhaseDamping(p, wires=0), "PhaseDamping"),
                    (lambda p: qp.BitFlip(p, wires=0), "BitFlip"), (lambda p: qp.PhaseFlip(p, wires=0), "PhaseFlip"),
-                   (lambda p: qp.DepolarizingChannel(p, wires=0), "DepolarizingChannel"), (lambda p: qp.PauliError("XZ", p, wires=[0, 1]), "PauliError")):
+                   (lambda p: qp.DepolarizingChannel(p, wires=0), "DepolarizingChannel"), (lambda p: qp.PauliError("XZ", p, wires=[0, 1]), "PauliError"),
+                   (lambda p: qp.PauliError("Y", p, wires=0), "PauliError"), (lambda p: qp.PauliError("ZY", p, wires=[0, 1]), "PauliError"),
+                   (lambda p: qp.PauliError("YXY", p, wires=[0, 1, 2]), "PauliError"), (lambda p: qp.PauliError("I", p, wires=0), "PauliError")):
         try:
             e = complete(mk(p))
         except Exception as ex:
@@ -131,9 +133,12 @@ def embed(K, ws, n):
 
 runs = []
 for ci in range(30 if tier == "quick" else 300):
-    n = rng.choice([1, 2, 2, 3])
+    n = rng.choice([1, 2, 2, 3, 4])
     order = list(range(n)); rng.shuffle(order)
     ops = []
+    B = rng.choice([None, None, 2, 3])      # broadcast dimension (one batched rotation early in the circuit)
+    if B:
+        ops.append(rng.choice([qp.RX, qp.RY])(np.array([rng.uniform(-3, 3) for _ in range(B)]), wires=rng.randrange(n)))
     for _ in range(rng.randint(2, 8)):
         r = rng.random()
         w = rng.randrange(n)
@@ -143,6 +148,9 @@ for ci in range(30 if tier == "quick" else 300):
             ops.append(rng.choice([qp.CNOT, qp.CZ])(wires=rng.sample(range(n), 2)))
         elif r < 0.6:
             ops.append(qp.Hadamard(w))
+        elif r < 0.72:
+            k = rng.randint(1, min(3, n))        # multi-wire Pauli error (3-wire operators take the tensordot kernel)
+            ops.append(qp.PauliError("".join(rng.choice("XYZ") for _ in range(k)), rng.choice([0.0, 1.0, rng.uniform(0, 1)]), wires=rng.sample(range(n), k)))
         else:
             p = rng.choice([0.0, 1.0, rng.uniform(0, 1)])
             ch = rng.choice(["AD", "PD", "BF", "PF", "DP", "GAD", "RE"])
@@ -150,14 +158,25 @@ for ci in range(30 if tier == "quick" else 300):
                         "PF": lambda: qp.PhaseFlip(p, wires=w), "DP": lambda: qp.DepolarizingChannel(p, wires=w),
                         "GAD": lambda: qp.GeneralizedAmplitudeDamping(p, rng.uniform(0, 1), wires=w), "RE": lambda: qp.ResetError(p * 0.5, rng.uniform(0, 0.5), wires=w)}[ch]())
     dev = qp.device("default.mixed", wires=order)
-    rho_dev = np.asarray(qp.execute([qp.tape.QuantumScript(ops, [qp.density_matrix(wires=order)])], dev)[0])
-    rho = np.zeros((2 ** n, 2 ** n), dtype=complex); rho[0, 0] = 1
-    for o in ops:
-        ws = [order.index(w) for w in o.wires]
-        Ks = o.kraus_matrices() if isinstance(o, qp.operation.Channel) else [np.asarray(qp.matrix(o))]
-        rho = sum(embed(np.asarray(K), ws, n) @ rho @ embed(np.asarray(K), ws, n).conj().T for K in Ks)
-    ev = np.linalg.eigvalsh((rho_dev + rho_dev.conj().T) / 2)
-    runs.append({"ops": [repr(o) for o in ops], "order": order, "err": float(np.abs(rho_dev - rho).max()), "herm": float(np.abs(rho_dev - rho_dev.conj().T).max()),
-                 "trace": float(abs(np.trace(rho_dev) - 1)), "min_eig": float(ev.min())})
+    rho_all = np.asarray(qp.execute([qp.tape.QuantumScript(ops, [qp.density_matrix(wires=order)])], dev)[0])
+    rho_all = rho_all.reshape((B or 1, 2 ** n, 2 ** n))
+    worst = {"err": 0.0, "herm": 0.0, "trace": 0.0, "min_eig": 1.0}
+    for b in range(B or 1):
+        rho = np.zeros((2 ** n, 2 ** n), dtype=complex); rho[0, 0] = 1
+        for o in ops:
+            ws = [order.index(w) for w in o.wires]
+            if isinstance(o, qp.operation.Channel):
+                Ks = o.kraus_matrices()
+            else:
+                ob = o
+                if getattr(o, "batch_size", None):
+                    ob = type(o)(float(np.asarray(o.data[0])[b]), wires=o.wires)
+                Ks = [np.asarray(qp.matrix(ob))]
+            rho = sum(embed(np.asarray(K), ws, n) @ rho @ embed(np.asarray(K), ws, n).conj().T for K in Ks)
+        rho_dev = rho_all[b]
+        ev = np.linalg.eigvalsh((rho_dev + rho_dev.conj().T) / 2)
+        worst = {"err": max(worst["err"], float(np.abs(rho_dev - rho).max())), "herm": max(worst["herm"], float(np.abs(rho_dev - rho_dev.conj().T).max())),
+                 "trace": max(worst["trace"], float(abs(np.trace(rho_dev) - 1))), "min_eig": min(worst["min_eig"], float(ev.min()))}
+    runs.append(dict({"ops": [repr(o) for o in ops], "order": order, "batch": B}, **worst))
 json.dump(oblig, open(req["outdir"] + "/obligations.json", "w"))
 print(json.dumps({"items": items, "numeric": num, "runs": runs}))
